@@ -37,7 +37,8 @@ CODES[core.RAISED] = ("oracle", "constructing or querying a satisfaction measure
 
 RULE = ("elections with 0..7 projects (costs from tie-rich pools: zeros, equal costs, halves/thirds/sevenths, a project "
         "dearer than the budget), budgets on boundaries, 1..5 ballots of one of the four ballot types (empty, full, "
-        "repeated ballots, zero and fractional scores), as Profile or MultiProfile; every compatible shipped measure is "
+        "repeated ballots, zero and fractional scores), as Profile or MultiProfile; every shipped measure the code accepts for "
+        "the ballot type (Effort_Sat on all four types) is "
         "built for every ballot and queried with sat_project for every project and sat for every subset when <=5 "
         "projects (16 sampled + empty + full above), then again re-ordered / in another container type; "
         "solver-reaching measures in separate small cases; non-trivial = distinct election in which some measure takes "
@@ -71,8 +72,10 @@ POOLS = [
 ]
 SCORES = [0, 0, 1, 1, 2, 3, 5, "1/2", "1/3", "1/7", "7/3"]
 BTYPES = ["approval", "cardinal", "cumulative", "ordinal"]
-PURE = {"approval": [1, 2, 3, 4, 5, 8], "cardinal": [1, 2, 4, 5, 6, 9], "cumulative": [1, 2, 4, 5, 6, 9],
-        "ordinal": [1, 2, 4, 5, 7]}
+# every measure x ballot-type combination the code accepts (the others raise ValueError in the constructor);
+# Effort_Sat is documented for approval ballots but accepts any ballot (`project in ballot`)
+PURE = {"approval": [1, 2, 3, 4, 5, 8], "cardinal": [1, 2, 3, 4, 5, 6, 9], "cumulative": [1, 2, 3, 4, 5, 6, 9],
+        "ordinal": [1, 2, 3, 4, 5, 7]}
 SOLV = {"approval": [10], "cardinal": [10, 11], "cumulative": [10, 11], "ordinal": [10]}
 TRANSC = [12, 13, 14, 15]
 
